@@ -12,7 +12,7 @@ SUBS = [
     dict(name="bigwait", fork=True, quick=dict(cases=2, shards=2), thorough=dict(cases=10, shards=4)),
     dict(name="writer", fork=True, quick=dict(cases=1500, shards=8), thorough=dict(cases=25000, shards=8)),
 ]
-WRAPS = ["poll", "recv", "send", "connect", "accept", "getsockopt", "setsockopt", "socket", "close", "bind", "fcntl"]
+WRAPS = ["poll", "recv", "send", "connect", "accept", "getsockopt", "setsockopt", "socket", "close", "bind", "fcntl", "shutdown"]
 
 
 def build(B):
